@@ -263,6 +263,7 @@ func runHistory(c *core.Ctx, kind, side string, n *core.N, path []int, script []
 	twin0, wf0 := read(twin)
 	txt0 := text(twin)
 	ia0 := indexAnswers(twin, nil) // the tip index (a map owned by the Tree struct) is part of the twin
+	raw0 := heapRaw(twin)          // and so is every cell: same addresses, same wiring
 	var wfs []string
 	if wf0 != "" {
 		wfs = append(wfs, "start: "+wf0)
@@ -297,6 +298,7 @@ func runHistory(c *core.Ctx, kind, side string, n *core.N, path []int, script []
 			b, wfb := read(twin)
 			twinBad = wfb != "" // broken by its own earlier edits: not this step's business
 			ia0 = indexAnswers(twin, nil)
+			raw0 = heapRaw(twin)
 			twins = append(twins, b)
 			txts = append(txts, text(twin))
 		}
@@ -341,6 +343,9 @@ func runHistory(c *core.Ctx, kind, side string, n *core.N, path []int, script []
 		txts = append(txts, text(twin))
 		if wf != "" && !twinBad {
 			wfs = append(wfs, fmt.Sprintf("step %d: %s", i+1, wf))
+		}
+		if raw := heapRaw(twin); raw != raw0 && !twinBad {
+			wfs = append(wfs, fmt.Sprintf("step %d: the pointer graph of the tree that was not edited changed (a cell was replaced or rewired)", i+1))
 		}
 		if ia := indexAnswers(twin, nil); ia != ia0 && !twinBad {
 			wfs = append(wfs, fmt.Sprintf("step %d: the tip index of the tree that was not edited changed from %s to %s", i+1, ia0, ia))
